@@ -65,18 +65,33 @@ func runSolverCtx(parent context.Context, name, file string, timeoutS int, seed 
 	return solveResult{st, name, text, ms}
 }
 
-// discharge races the solvers on one query: the first definite answer wins.
-func discharge(file string, order []string, timeoutS int, seed int) solveResult {
+// discharge races the solvers on the full query and, when given, on its cone-of-influence slice:
+// "unsat" from any run wins, "sat" counts only on the full query.
+func discharge(file, sliced string, order []string, timeoutS int, seed int) solveResult {
 	start := time.Now()
 	ctx, cancel := context.WithCancel(context.Background())
 	defer cancel()
-	ch := make(chan solveResult, len(order))
+	n := len(order)
+	if sliced != "" {
+		n++
+	}
+	ch := make(chan solveResult, n)
 	for _, s := range order {
 		go func(s string) { ch <- runSolverCtx(ctx, s, file, timeoutS, seed) }(s)
 	}
+	if sliced != "" {
+		go func() {
+			r := runSolverCtx(ctx, order[0], sliced, timeoutS, seed)
+			if r.status == "sat" {
+				r.status = "unknown" // a model of the slice may violate dropped facts
+			}
+			r.solver += "/slice"
+			ch <- r
+		}()
+	}
 	var notes []string
 	var last solveResult
-	for range order {
+	for i := 0; i < n; i++ {
 		r := <-ch
 		if r.status == "unsat" || r.status == "sat" {
 			r.ms = time.Since(start).Milliseconds()
@@ -266,18 +281,7 @@ func solveAll(E *Engine, obls []*Obligation, opt solveOpts) {
 					to = 3
 					order = order[:1]
 				}
-				var r solveResult
-				if j.sliced != "" {
-					// cone-of-influence query first: an "unsat" there is final
-					r = discharge(j.sliced, order, to, opt.seed)
-					if r.status != "unsat" {
-						first := r.ms
-						r = discharge(j.file, order, to, opt.seed)
-						r.ms += first
-					}
-				} else {
-					r = discharge(j.file, order, to, opt.seed)
-				}
+				r := discharge(j.file, j.sliced, order, to, opt.seed)
 				j.o.Result = r.status
 				j.o.Solver = r.solver
 				j.o.WallMs = r.ms
